@@ -513,6 +513,10 @@ class Keys(object):
                 obj = self.key(c[2]) if c[2] is not None else 'this'
                 if c[1] and c[1].startswith('operator '):
                     return obj          # conversion operator: same value
+                if c[1] in ('front', 'back') and not call_args(e) and c[2] is not None and \
+                        re.search(r'\b(vector|array|deque|basic_string)<', (dtype(c[2]) or '') + (qtype(c[2]) or '')):
+                    # the first / last element of a sequence container, keyed as the subscript it denotes
+                    return '%s[n:0]' % obj if c[1] == 'front' else '%s[(%s.size() - n:1)]' % (obj, obj)
                 return '%s.%s(%s)' % (obj, c[1], ','.join(self.key(a) for a in call_args(e)))
         if k == 'CallExpr':
             c = callee(e)
